@@ -174,6 +174,12 @@ def finish(prop, tier, seed, level, violations, coverage, t0, assumptions=(), ma
             known.setdefault(fd["id"], [fd, 0])[1] += 1
     for fid, (fd, n) in sorted(known.items()):
         print("KNOWN-FINDING: property=%s %s [%s, %d occurrence(s) this run]" % (prop, fd["what"], fid, n))
+    try:                                    # replay files of earlier runs of this property are stale
+        for fn in os.listdir(REPLAYS):
+            if fn.startswith(prop + "-"):
+                os.unlink(os.path.join(REPLAYS, fn))
+    except OSError:
+        pass
     for i, v in enumerate(new[:50]):
         path = write_replay(prop, i, v)
         brief = {k: v[k] for k in v if k not in ("case", "property", "detail")}
